@@ -15,7 +15,9 @@ d, f, k = check.run_family(fam, prop, tier, lib.load_known_findings(), stats)
 s = stats[fam.name]
 print({k2: v for k2, v in s.items() if k2 not in ('samples', 'rule')})
 for x in d[:int(os.environ.get('SHOW', '5'))]:
-    print('DISAGREE', json.dumps(x['case'])[:1500]); print('  model:', x['model'][:1500]); print('  impl :', x['impl'][:1500])
+    m, im = x['model'], x['impl']
+    n = next((i for i in range(min(len(m), len(im))) if m[i] != im[i]), min(len(m), len(im)))
+    print('DISAGREE', json.dumps(x['case'])[:int(os.environ.get('CASELEN', '700'))]); print('  first difference at char', n); print('  model:', m[max(0, n - 150):n + 150]); print('  impl :', im[max(0, n - 150):n + 150])
     if x.get('trace'): print(x['trace'])
 import collections
 print('signatures:', collections.Counter(x['signature'] for x in f), 'known:', collections.Counter(kk['signature'] for kk, e in k))
